@@ -94,7 +94,10 @@ func traverseAll(pj *simdjson.ParsedJson) (what string) {
 			what = fmt.Sprintf("PANIC while traversing the returned result: %v", r)
 		}
 	}()
-	for _, o := range walkCombos {
+	for ci, o := range walkCombos {
+		if len(pj.Tape) > 1000 && ci != 0 && ci != 2 && ci != 5 {
+			continue // large tapes: three of the six traversal combinations (every API family still runs)
+		}
 		if _, err := walkDoc(pj, o); err != nil {
 			if errors.Is(err, errBudget) || strings.Contains(err.Error(), "PANIC") {
 				return o.String() + ": " + err.Error()
